@@ -84,6 +84,16 @@ def run_real(op, tl, par):
     elif op == "timeout":
         other = s.create_cold_observable(ReactiveTest.on_next(5, "fallback"), ReactiveTest.on_completed(10))
         o = src.pipe(ops.timeout(d, other))
+    elif op == "throttle_with_mapper":
+        o = src.pipe(ops.throttle_with_mapper(lambda v: rx.timer(dv(d, v), scheduler=s)))
+    elif op == "timeout_with_mapper":
+        other = s.create_cold_observable(ReactiveTest.on_next(5, "fallback"), ReactiveTest.on_completed(10))
+        o = src.pipe(ops.timeout_with_mapper(rx.timer(d, scheduler=s), lambda v: rx.timer(dv(d, v), scheduler=s), other))
+    elif op == "delay_with_mapper":
+        if par.get("sd") is not None:
+            o = src.pipe(ops.delay_with_mapper(rx.timer(par["sd"], scheduler=s), lambda v: rx.timer(dv(d, v), scheduler=s)))
+        else:
+            o = src.pipe(ops.delay_with_mapper(lambda v: rx.timer(dv(d, v), scheduler=s)))
     else:
         raise SystemExit(f"unknown operator {op}")
     res = s.start(lambda: o, disposed=900)
@@ -91,14 +101,22 @@ def run_real(op, tl, par):
     for m in res.messages:
         k = m.value.kind
         out.append((int(m.time), k, m.value.value if k == "N" else None))
-    if op == "timeout":
+    if op in ("timeout", "timeout_with_mapper"):
         # "never after the source terminated": the fallback is subscribed at most once, and only by a switch
         out.append((0, "fallback-subscriptions", len(other.subscriptions)))
     return out
 
 
+def dv(d, v):
+    """the per-element duration of the *_with_mapper operators: the mapper's observable fires dv(d, v) after the element"""
+    return d + (10 if v is None else 0)
+
+
 def reference(op, tl, par):
     d = par.get("d", 0)
+    if op == "delay_with_mapper" and par.get("sd") is not None:
+        # the (hot) source is subscribed when the subscription delay fires: what it sent up to that instant is not seen
+        tl = [e for e in tl if e[0] > SUB + par["sd"]]
     els = [(t, v) for (t, k, v) in tl if k == "N"]
     term = next(((t, k) for (t, k, v) in tl if k in ("E", "C")), None)
     out = []
@@ -118,9 +136,11 @@ def reference(op, tl, par):
             last = t
         if term:
             out.append((term[0], term[1], None))
-    elif op == "debounce":
+    elif op in ("debounce", "throttle_with_mapper"):
         end = term[0] if term else 10 ** 9
+        d0 = d
         for i, (t, v) in enumerate(els):
+            d = dv(d0, v) if op == "throttle_with_mapper" else d0
             nxt = els[i + 1][0] if i + 1 < len(els) else None
             if nxt is not None and nxt <= t + d:
                 continue
@@ -198,17 +218,27 @@ def reference(op, tl, par):
         out.sort(key=lambda e: e[0])
         if term:
             out.append((term[0], term[1], None))
-    elif op == "timeout":
-        last = SUB
+    elif op in ("timeout", "timeout_with_mapper"):
+        deadline = SUB + d
         for (t, k, v) in tl:
-            if t > last + d:
+            if t > deadline:
                 break
             out.append((t, k, v if k == "N" else None))
             if k != "N":
                 return out + [(0, "fallback-subscriptions", 0)]
-            last = t
-        sw = last + d
+            deadline = t + (dv(d, v) if op == "timeout_with_mapper" else d)
+        sw = deadline
         out += [(sw + 5, "N", "fallback"), (sw + 10, "C", None), (0, "fallback-subscriptions", 1)]
+    elif op == "delay_with_mapper":
+        els = [(t, v) for (t, k, v) in tl if k == "N"]
+        term = next(((t, k) for (t, k, v) in tl if k in ("E", "C")), None)
+        em = sorted(((t + dv(d, v), i, v) for i, (t, v) in enumerate(els)), key=lambda e: (e[0], e[1]))
+        if term and term[1] == "E":
+            out = [(t, "N", v) for (t, _i, v) in em if t < term[0]] + [(term[0], "E", None)]
+        else:
+            out = [(t, "N", v) for (t, _i, v) in em]
+            if term:
+                out.append((max([term[0]] + [t for (t, _i, _v) in em]), "C", None))
     return out
 
 
@@ -237,11 +267,14 @@ OPS = {
     "skip_until_with_time": [{"d": 20, "abs": False}, {"d": 20, "abs": True}, {"d": 35, "abs": True}, {"d": 20, "abs": False, "cold": True}, {"d": 20, "abs": True, "cold": True}],
     "take_last_with_time": [{"d": 10}, {"d": 20}, {"d": 30}], "skip_last_with_time": [{"d": 10}, {"d": 20}, {"d": 30}],
     "timeout": [{"d": 15}, {"d": 25}],
+    "throttle_with_mapper": [{"d": 10}, {"d": 20}, {"d": 15}], "timeout_with_mapper": [{"d": 15}, {"d": 25}],
+    "delay_with_mapper": [{"d": 10}, {"d": 25}, {"d": 10, "sd": 15}, {"d": 25, "sd": 20}, {"d": 10, "sd": 0}],
 }
 FILES = {"delay": "_delay.py", "delay_subscription": "_delaysubscription.py", "timestamp": "_timestamp.py", "time_interval": "_timeinterval.py",
          "debounce": "_debounce.py", "throttle_first": "_throttlefirst.py", "sample": "_sample.py", "take_with_time": "_takewithtime.py",
          "skip_with_time": "_skipwithtime.py", "take_until_with_time": "_takeuntilwithtime.py", "skip_until_with_time": "_skipuntilwithtime.py",
-         "take_last_with_time": "_takelastwithtime.py", "skip_last_with_time": "_skiplastwithtime.py", "timeout": "_timeout.py"}
+         "take_last_with_time": "_takelastwithtime.py", "skip_last_with_time": "_skiplastwithtime.py", "timeout": "_timeout.py",
+         "throttle_with_mapper": "_debounce.py::throttle_with_mapper_", "timeout_with_mapper": "_timeoutwithmapper.py", "delay_with_mapper": "_delaywithmapper.py"}
 
 
 def check(op, tl, par):
@@ -277,7 +310,7 @@ def main(argv):
     opts = json.loads(argv[3]) if len(argv) > 3 else {}
     oid = opts.get("oid", "")
     names = list(OPS)
-    mine = [n for n in names if n == target or FILES[n] in oid or FILES[n] in target]
+    mine = [target] if target in names else [n for n in names if FILES[n] in oid or FILES[n] in target]
     order = mine if (target != "all" and mine) else names
     skip = set(opts.get("skip", []))
     n, found = 0, None
